@@ -394,22 +394,29 @@ fn perturbations(cli: &Cli, global: &GlobalContext<C>, creds: &[(&CredV1, Vec<At
                 m!(format!("credential {i} statement proof {k}: taken from a presentation with another context"), Reject, move |p: &mut Pres, _: &mut Vec<Material>| proofs_mut(&mut p.verifiable_credentials[i])[k] = op.clone());
             }
         }
-        m!(format!("credential {i}: last statement dropped (proofs kept)"), Reject, move |p: &mut Pres, _: &mut Vec<Material>| {
-            stmts_mut(&mut p.verifiable_credentials[i]).pop();
-        });
-        m!(format!("credential {i}: last statement proof dropped (statements kept)"), Reject, move |p: &mut Pres, _: &mut Vec<Material>| {
-            proofs_mut(&mut p.verifiable_credentials[i]).pop();
-        });
-        m!(format!("credential {i}: last statement dropped with its proof"), Reject, move |p: &mut Pres, _: &mut Vec<Material>| {
-            stmts_mut(&mut p.verifiable_credentials[i]).pop();
-            proofs_mut(&mut p.verifiable_credentials[i]).pop();
-        });
-        m!(format!("credential {i}: last statement and proof duplicated"), Reject, move |p: &mut Pres, _: &mut Vec<Material>| {
-            let s = stmts_mut(&mut p.verifiable_credentials[i]).last().unwrap().clone();
-            stmts_mut(&mut p.verifiable_credentials[i]).push(s);
-            let s = proofs_mut(&mut p.verifiable_credentials[i]).last().unwrap().clone();
-            proofs_mut(&mut p.verifiable_credentials[i]).push(s);
-        });
+        if !atoms.is_empty() {
+            m!(format!("credential {i}: last statement dropped (proofs kept)"), Reject, move |p: &mut Pres, _: &mut Vec<Material>| {
+                stmts_mut(&mut p.verifiable_credentials[i]).pop();
+            });
+            m!(format!("credential {i}: last statement proof dropped (statements kept)"), Reject, move |p: &mut Pres, _: &mut Vec<Material>| {
+                proofs_mut(&mut p.verifiable_credentials[i]).pop();
+            });
+            m!(format!("credential {i}: last statement dropped with its proof"), Reject, move |p: &mut Pres, _: &mut Vec<Material>| {
+                stmts_mut(&mut p.verifiable_credentials[i]).pop();
+                proofs_mut(&mut p.verifiable_credentials[i]).pop();
+            });
+            m!(format!("credential {i}: last statement and proof duplicated"), Reject, move |p: &mut Pres, _: &mut Vec<Material>| {
+                let s = stmts_mut(&mut p.verifiable_credentials[i]).last().unwrap().clone();
+                stmts_mut(&mut p.verifiable_credentials[i]).push(s);
+                let s = proofs_mut(&mut p.verifiable_credentials[i]).last().unwrap().clone();
+                proofs_mut(&mut p.verifiable_credentials[i]).push(s);
+            });
+        } else {
+            // a credential without statements: a statement (with its proof, taken from the other presentation's first credential) must not be insertable
+            m!(format!("credential {i}: a statement added without proof"), Reject, move |p: &mut Pres, _: &mut Vec<Material>| {
+                stmts_mut(&mut p.verifiable_credentials[i]).push(AtomicStatementV1::AttributeValue(AttributeValueStatement { attribute_tag: AttributeTag(0), attribute_value: ws("x"), _phantom: Default::default() }));
+            });
+        }
         // --- metadata bound by the transcript ---------------------------------------------------------
         m!(format!("credential {i}: creation time + 1 ms"), Reject, move |p: &mut Pres, _: &mut Vec<Material>| match &mut p.verifiable_credentials[i] {
             CredentialV1::Account(a) => a.proof.created_at += chrono::Duration::milliseconds(1),
@@ -913,7 +920,7 @@ pub fn layer_c(report: &Report, cli: &Cli, global: &GlobalContext<C>) {
     };
     let four = vec![AtomV1 { tag: 5, st: StV1::Value(alph[5].0.clone()) }, pick(1, &|s| matches!(s, St::Range(..))), pick(0, &|s| matches!(s, St::InSet(x) if x.len() == 3)), pick(2, &|s| matches!(s, St::NotInSet(x) if x.len() == 2))];
     let two = vec![pick(2, &|s| matches!(s, St::Range(..))), AtomV1 { tag: 0, st: StV1::Value(alph[0].0.clone()) }];
-    let bases: Vec<(&str, Vec<(&CredV1, Vec<AtomV1>)>)> = vec![("account", vec![(&acc, four.clone())]), ("identity", vec![(&idc, four.clone())]), ("account+identity", vec![(&acc, two.clone()), (&idc, two.clone())]), ("identity+account", vec![(&idc, two.clone()), (&acc, two.clone())])];
+    let bases: Vec<(&str, Vec<(&CredV1, Vec<AtomV1>)>)> = vec![("account", vec![(&acc, four.clone())]), ("identity", vec![(&idc, four.clone())]), ("account+identity", vec![(&acc, two.clone()), (&idc, two.clone())]), ("identity+account", vec![(&idc, two.clone()), (&acc, two.clone())]), ("identity without statements", vec![(&idc, vec![])]), ("account+identity without statements", vec![(&acc, two.clone()), (&idc, vec![])])];
     for (name, creds) in &bases {
         let base_w = json!({"layer": "web3id-v1-presentation-perturbation", "credentials": name});
         let (request, res) = prove_v1(global, &context(), creds, cli.seed, now());
